@@ -29,6 +29,7 @@ impl Space {
                     "FC" => fam::fc_count(k),
                     "FA" => fam::fa_count(k),
                     "FT" => fam::ft_count(k),
+                    "FL" => fam::fl_count(k),
                     "FB" => fam::fb_count(k),
                     "FU" => fam::fu_count(),
                     _ => panic!("unknown family {name}"),
@@ -50,6 +51,7 @@ impl Space {
                     "FC" => fam::fc_decode(idx, p.k),
                     "FA" => fam::fa_decode(idx, p.k),
                     "FT" => fam::ft_decode(idx, p.k),
+                    "FL" => fam::fl_decode(idx, p.k),
                     "FB" => fam::fb_decode(idx, p.k),
                     "FU" => fam::fu_decode(idx),
                     _ => unreachable!(),
